@@ -830,20 +830,27 @@ impl<R: Read> RdbReader<R> {
             .unwrap()
             .as_millis() as u64;
         
-        let ttl = if expiry_ms > now_ms {
-            Some(Duration::from_millis(expiry_ms - now_ms))
+        if expiry_ms > now_ms {
+            let ttl = Some(Duration::from_millis(expiry_ms - now_ms));
+            self.read_key_value_with_type(storage, db, value_type, ttl)?;
         } else {
-            None // Already expired
-        };
+            // The deadline passed while the data was on disk: the entry still has to be
+            // consumed from the file, but the key must not come back (least of all
+            // without a TTL)
+            let key = self.read_key_value_with_type(storage, db, value_type, None)?;
+            storage.delete(db, &key)?;
+        }
         
-        self.read_key_value_with_type(storage, db, value_type, ttl)
+        Ok(())
     }
     
-    /// Read key-value with known type
-    fn read_key_value_with_type(&mut self, storage: &Arc<StorageEngine>, db: usize, value_type: u8, ttl: Option<Duration>) -> Result<()> {
+    /// Read key-value with known type; returns the key that was loaded
+    fn read_key_value_with_type(&mut self, storage: &Arc<StorageEngine>, db: usize, value_type: u8, ttl: Option<Duration>) -> Result<Vec<u8>> {
+        let loaded_key;
         match value_type {
             op if op == RdbOpcode::String as u8 => {
                 let key = self.read_string()?;
+                loaded_key = key.clone();
                 let value = self.read_string()?;
                 
                 if let Some(ttl) = ttl {
@@ -854,6 +861,7 @@ impl<R: Read> RdbReader<R> {
             }
             op if op == RdbOpcode::ZSet as u8 || op == RdbOpcode::ZSet2 as u8 => {
                 let key = self.read_string()?;
+                loaded_key = key.clone();
                 let count = self.read_length()?;
                 
                 for _ in 0..count {
@@ -868,6 +876,7 @@ impl<R: Read> RdbReader<R> {
             }
             op if op == RdbOpcode::List as u8 => {
                 let key = self.read_string()?;
+                loaded_key = key.clone();
                 let count = self.read_length()?;
                 
                 // Check if this is a stream marker
@@ -921,7 +930,7 @@ impl<R: Read> RdbReader<R> {
                         if let Some(ttl) = ttl {
                             storage.expire(db, &key, ttl)?;
                         }
-                        return Ok(());
+                        return Ok(loaded_key);
                     } else {
                         // Regular list - first element already read
                         storage.rpush(db, key.clone(), vec![first_element])?;
@@ -942,6 +951,7 @@ impl<R: Read> RdbReader<R> {
             }
             op if op == RdbOpcode::Set as u8 => {
                 let key = self.read_string()?;
+                loaded_key = key.clone();
                 let count = self.read_length()?;
                 
                 // Read all set members
@@ -957,6 +967,7 @@ impl<R: Read> RdbReader<R> {
             }
             op if op == RdbOpcode::Hash as u8 => {
                 let key = self.read_string()?;
+                loaded_key = key.clone();
                 let count = self.read_length()?;
                 
                 // Read all hash field-value pairs
@@ -978,7 +989,7 @@ impl<R: Read> RdbReader<R> {
             }
         }
         
-        Ok(())
+        Ok(loaded_key)
     }
     
     /// Read a single byte
